@@ -108,6 +108,13 @@ CHECKS["C19"] = dict(
     ref="5/C19 and 12",
 )
 
+CHECKS["C05"] = dict(
+    technique="TLA+ reference evaluator of glyph outlines and advances (GlyfSem.tla over IUP / VarSem / VarStoreSem / T2Sem, written from the OpenType glyf, gvar, HVAR, avar, fvar and CFF2 texts) model-checked for its own laws; TLC-emitted and seeded model fonts and every corpus font drawn through the real glyph set at lattice locations, the recorded pen calls and widths judged by TLC against the reference computed from the raw table data; HarfBuzz as a second observer for triage",
+    text="TLC checks the reference's laws over seven small universes (contour closure and implied points, IUP identity, default location, peaks and clamping, composite associativity over nesting, scaled / unscaled offsets, point matching, USE_MY_METRICS, HVAR indexing, avar / normalisation, integer-grid outline equality) and emits font descriptions; those, seeded glyf model fonts (all component flag combinations, nesting, every on/off-curve pattern, corner and intermediate tents, sparse and phantom-only point sets, avar, HVAR with and without map) and CFF2 model fonts are realised with FontBuilder and drawn through TTFont.getGlyphSet(location) with a recording pen at every lattice location incl. out-of-range ones; the trace carries the raw points, flags, components, tuple variations, fvar/avar/HVAR data read by independent readers and fontTools' pen calls and width; TLC computes outline and advance from the raw data in exact rationals and requires equality up to start point, empty atoms and 4/2048 unit. Every corpus font (382 incl. compiled TTX) is judged the same way on a seeded glyph sample at default and variation locations; CFF/CFF2 glyphs run through T2Sem once per region and are blended with VarSem scalars.",
+    note="Trusted: TLC, GlyfSem (checked by MC_GlyfSem), the independent fvar/avar/gvar/HVAR readers, float -> rational recovery. The reference is evaluated only at locations whose normalised coordinates are exact F2Dot14 numbers. Named conventions accepted: lsb shift and advances rounded with otRound. Out of domain (skipped, counted): VARC, avar 2 at variation locations, cubic glyf, seac, composites whose USE_MY_METRICS component disagrees with their own metrics. Two open known findings (point-matched components, composite lsb shift).",
+    ref="5/C05 and 12",
+)
+
 NOT_YET = "check not built yet in this round (see DESIGN.md section 10 for the build order)"
 
 
